@@ -300,6 +300,12 @@ def _mirsym():
         spec=sx.XorFloatSpec(), stubs=["bitbuffer::{BitWriteStream::write_int, BitReadStream::read_int} -> bit FIFO (LSB first)"],
         assumptions=["bitbuffer write_int/read_int are bit-FIFO consistent"])
 
+    add("C15.a/subpartition_writer", "C15", "mirsym", Q,
+        "inner_locustdb::subpartition splits the name-sorted columns into contiguous runs, records each run's greatest column name as last_column and uses it (if file-system safe, else a digest, 'all' for a single run) as the file key, with sizes bounded by max_partition_size_bytes: together with C15.a/subpartition_key every stored column is routed to the file it was written to",
+        ["scheduler::inner_locustdb::subpartition", "inner_locustdb::{create_subpartition,is_filesystem_safe}"],
+        bounds="column name sets {b,a,c}, {col_b,col_a}, {a} (quick) + {b,A,c}, {z,m,a,q} (thorough), given unsorted; per-column sizes (multiples of 8 below 2^20) and max_partition_size_bytes symbolic; Column::heap_size_of_children stubbed, Sha256 uninterpreted",
+        spec=sr.SubpartitionWriterSpec(), stubs=["Column::heap_size_of_children -> symbolic size per column", "Sha256 -> uninterpreted", "slice::sort_by -> insertion sort driven by the real comparison closure"])
+
 
 _mirsym()
 
